@@ -48,7 +48,7 @@ def run(ctx):
     cli_cases = [gen(ctx, kind) for stream, kind, n in streams(ctx) for _ in range(max(8, n // 25))]
     # … and Primary-mode maps (one haplotype tagged Primary, the other merged into all_haplotigs) with Contaminant / FalseDuplicate / Haplotig pieces:
     # the only place where the FILE an assembly is written to is decided by more than its key (wave 12, C09j)
-    cli_cases += [R.make_case(ctx.rng, "primarymode") for _ in range(60 if ctx.thorough else 14)]
+    cli_cases += [R.make_case(ctx.rng, ctx.rng.choice(["primarymode", "primarynames"])) for _ in range(60 if ctx.thorough else 14)]
     R.run_cli_cases(ctx, "cli-end-to-end", cli_cases, classify, only=["output file", "does not contain exactly", "unexpected assembly files"], names_model=True)
     # history: the same maps remapped AFTER other maps of the same input on ONE IndexedAssembly object (in-process state must not matter)
     hk = ['tagged', 'tagged2']
